@@ -26,6 +26,9 @@ type Req struct {
 	CT     string `json:"ct,omitempty"`
 	Route  string `json:"route"`
 	Odd    int    `json:"odd"` // number of out-of-grammar values
+	// Repeat > 0 (verify requests): the body is a JSON array of that many items - Body holds ONE item (absurd lengths
+	// without megabytes in plans and replays)
+	Repeat int `json:"repeat,omitempty"`
 }
 
 // C16Plan: a store (fixed shape, see c16Store) + a list of requests.
@@ -296,6 +299,11 @@ func (f *c16Fixture) genReq(t *rapid.T) Req {
 		q.Body, q.CT = f.drawJSON(t, "hashes", &odd)
 	case strings.HasSuffix(rt[1], "/verify"):
 		q.Body, q.CT = f.drawJSON(t, "verify", &odd)
+		if rapid.Uint32().Draw(t, "manyk")%24 == 5 {
+			// a well-formed request of absurd length: one verdict per item is still the only acceptable answer
+			q.Body, q.CT = fmt.Sprintf(`{"merkleRoot":%q,"blockHeight":%d}`, f.Roots[rapid.IntRange(0, len(f.Roots)-1).Draw(t, "mr")], rapid.IntRange(0, 9).Draw(t, "mh")), "application/json"
+			q.Repeat = rapid.SampledFrom([]int{999, 1000, 1001, 32766, 32767, 32768, 40000, 65535, 65536, 70000}).Draw(t, "many")
+		}
 	case strings.HasSuffix(rt[1], "/webhook") && rt[0] == "POST":
 		q.Body, q.CT = f.drawJSON(t, "webhook", &odd)
 	default:
@@ -362,6 +370,10 @@ func runC16(p *C16Plan) (*stats.Case, error) {
 		var body []byte
 		if q.Body != "" || q.Method == "POST" {
 			body = []byte(q.Body)
+		}
+		if q.Repeat > 0 {
+			body = []byte("[" + strings.Repeat(q.Body+",", q.Repeat-1) + q.Body + "]")
+			cl["verify_requests_with_thousands_of_items"]++
 		}
 		resp, pan := f.S.Do(q.Method, q.Target, hdr, body)
 		what := fmt.Sprintf("request %d: %s %s body %q (route %s)", i, q.Method, snip([]byte(q.Target)), snip([]byte(q.Body)), q.Route)
